@@ -1,91 +1,101 @@
-"""C03 — partial evaluation commutes with evaluation (DESIGN §5 C03)."""
-import itertools
+"""C03 — partial evaluation commutes with evaluation (DESIGN §5 C03).
+
+The rules are formulated on the normal form (sa.normalize, VIEW = 'norm') plus the local normal form
+of rules/pe.py (Option / bool combinators as control flow), and in terms of dataflow facts:
+which value is folded into which target in which case of the "is this id fixed?" probe, which
+collection receives which ids, what reaches the result.  Equivalent idioms are enumerated in tables
+in pe.py (probes, entry accumulation, element access, loop bounds)."""
 from .common import *
 from . import pe
 
+VIEW = 'norm'
+
 INST = 'v1::Instance'; DV = 'v1::DecisionVariable'
+
+# id sets: `set.insert(id)` | `set.extend([a, b])` (normal form: one insert per element) | `set.extend(vec_of_ids)`
+SET_SINK = re.compile(r'BTreeSet::<(u64|T)>::insert$|<std::collections::BTreeSet<u64> as std::iter::Extend<u64>>::extend')
 
 
 def probes_in(body, blocks=None):
-    out = []
-    for c in body.calls:
-        if c.item == 'get' and re.search(pe.STATE_GET, c.name) and ('v1::State', 'entries') in T.access_path(body, c.args[0])[0]:
-            if blocks is None or c.bb in blocks: out.append(c)
-    return out
+    return pe.probes_in(body, blocks)
 
 
-def table(ctx, body, probes, header, self_adt, rename=None):
-    start = probes[-1].target
-    tab = {}
-    for asg in itertools.product((1, 0), repeat=len(probes)):
-        reg = pe.case_region(body, start, list(asg), probes, {header})
-        where = {}
-        eff0 = pe.effects_in(ctx, body, reg, self_adt, where)
-        eff = set()
-        for e in eff0:
-            # an effect counts only if every path of this case back to the loop header performs it
-            always = pe.case_region(body, start, list(asg), probes, {header}, avoid=where.get(e, set())) is not None
-            eff.add(e if always else ('sometimes',) + e)
-        if rename: eff = {tuple(rename.get(x, x) if isinstance(x, str) else x for x in e) for e in eff}
-        tab[''.join('S' if a else 'N' for a in asg)] = eff
-        ctx.counters['cfg_paths'] += 1
-    return tab
+def bound_rule(ctx, R, name, b, blocks, header, fields, adt, what):
+    """the index loop runs until the end of self.<vec>.  Weaker, always decided: the exit condition derives
+    from the vector's length; precise (undecided when the bound is cached in a local): it *is* the length."""
+    k = pe.index_loop_bound(ctx, b, blocks, header, fields, adt)
+    ctx.check(k is not None, R + '/' + name, 'T-LOOPMUST', b.name, '%s is not bounded by the length of self.%s' % (what, '/'.join(fields)), b.site())
+    X = 'C03.exact/%s/%s' % (R.split('.')[-1], name)        # own family without a floor: may be undecided after a refactoring
+    if k == 'precise': ctx.ok(X, 'T-LOOPMUST', b.site())
+    elif k == 'derived':
+        ctx.undecided(X, 'T-LOOPMUST', b.site(), 'the loop bound is a local derived from %s.len() (cached bound); its updates are not decided' % '/'.join(fields))
+    else:
+        ctx.bad(X, 'T-LOOPMUST', b.name, '%s: no comparison of the index with self.%s.len() and no `.get(index)` decides the loop exit' % (what, '/'.join(fields)), b.site())
 
 
-def check_table(ctx, rule, body, tab, want, site=None):
-    for case, w in want.items():
-        got = tab.get(case, set())
-        missing = sorted(map(str, w - got)); extra = sorted(map(str, got - w))
-        ctx.check(not missing and not extra, '%s/%s' % (rule, case), 'T-BRANCHFX', body.name,
-                  'case %s (S = variable fixed, N = free): missing effects %s, unexpected effects %s' % (case, missing, extra), site or body.site(), effects=sorted(map(str, got)))
-        ctx.sample(dict(rule=rule, case=case, effects=sorted(map(str, got))))
-
-
-def loop_with(body, call):
-    cands = [(h, bl) for h, bl in body.loops().items() if call.bb in bl]
-    return min(cands, key=lambda x: len(x[1])) if cands else (None, set())
+def ret_is_used(ctx, R, b):
+    """the returned set is the one the reports go to"""
+    ins = [c for c in b.calls if SET_SINK.search(c.name)]
+    roots = {pe.root_of(b, c.args[0]) for c in ins}
+    okr = False
+    for e, k, st in b.ret_assignments():
+        if k == 'ok':
+            r = pe.root_of(b, st['rv']['ops'][0])
+            okr = len(roots) == 1 and r in roots
+    ctx.check(okr, R + '/returns-reported-set', 'T-CARRY', b.name, 'the returned id set is not the set the fixed ids are inserted into', b.site())
 
 
 def linear_rules(ctx):
     R = 'C03.linear'
-    b = ctx.method(R + '/anchor', 'v1::Linear', 'partial_evaluate', trait='Evaluate')
+    b = pe.lnorm(ctx, ctx.method(R + '/anchor', 'v1::Linear', 'partial_evaluate', trait='Evaluate'))
     if b is None: return
     pr = probes_in(b)
     ctx.check(len(pr) == 1, R + '/probe', 'T-BRANCHFX', b.name, 'expected one probe of the state, found %d' % len(pr), b.site())
     if len(pr) != 1: return
     ctx.check(pe.label(b, T.expr(b, pr[0].args[1])) == 'id' and T.access_path(b, pr[0].args[0])[1] == 2, R + '/probe-key', 'T-CARRY', b.name, 'probe is not state.get(term.id)', b.site(pr[0].bb))
-    h, bl = loop_with(b, pr[0])
-    tab = table(ctx, b, pr, h, 'v1::Linear')
-    check_table(ctx, R + '/case', b, tab, {
+    h, bl = pe.loop_with(b, pr[0])
+    tab = pe.table(ctx, b, pr, h, 'v1::Linear')
+    pe.check_table(ctx, R + '/case', b, tab, {
         'S': {('acc', 'self.constant', 'Add', ('coefficient', 'val[id]')), ('remove', 'terms'), ('report', 'id')},
         'N': {('inc', 'index')}})
-    # the removed term is the probed one: same index local for index(), swap_remove
-    idx = set()
-    for c in b.calls:
-        if c.item in ('index', 'swap_remove', 'remove') and 'linear::Term' in c.name: idx.add(T.expr_str(T.expr(b, c.args[1])))
+    # the removed term is the probed one: one index expression for reading (`terms[i]` / `terms.get(i)`) and removing
+    idx = pe.element_indices(b, bl, r'linear::Term')
     ctx.check(len(idx) == 1, R + '/same-index', 'T-CARRY', b.name, 'probe, fold and removal use different indices %s' % sorted(idx), b.site())
     ret_is_used(ctx, R, b)
-    # loop runs over all terms: condition i < terms.len()
-    conds = [(bi, st) for bi, st in b.stmts() if st['rv']['k'] == 'bin' and st['rv']['op'] in ('Lt', 'Ne') and st['rv'].get('ty') == 'usize']
-    ok = any(T.expr_has_call(T.expr(b, st['rv']['ops'][1]), 'len') and (('v1::Linear', 'terms') in T.expr_fields(T.expr(b, st['rv']['ops'][1]))) for bi, st in conds)
-    ctx.check(ok, R + '/all-terms', 'T-LOOPMUST', b.name, 'loop is not bounded by terms.len()', b.site())
+    bound_rule(ctx, R, 'all-terms', b, bl, h, ('terms',), 'v1::Linear', 'the term loop')
 
 
-def ret_is_used(ctx, R, b):
-    """the returned set is the one the reports go to"""
-    ins = [c for c in b.calls if c.item == 'insert' and 'BTreeSet::<u64>::insert' in c.name]
-    roots = {T.access_path(b, c.args[0], transparent=T.TRANSPARENT_NOCLONE)[1] for c in ins}
-    okr = False
-    for e, k, st in b.ret_assignments():
-        if k == 'ok':
-            r = T.access_path(b, st['rv']['ops'][0], transparent=T.TRANSPARENT_NOCLONE)[1]
-            okr = len(roots) == 1 and r in roots
-    ctx.check(okr, R + '/returns-reported-set', 'T-CARRY', b.name, 'the returned id set is not the set the fixed ids are inserted into', b.site())
+def writes_to_self_field(b, adt, field):
+    """(bb, stmt) of assignments to self.<field>, also through `let Self { field, .. } = self`"""
+    out = []
+    for bi, st in b.stmts():
+        d = st['dst']
+        if not d['p']: continue
+        fs, root, calls = T.access_path(b, {'k': 'copy', 'pl': d}, transparent=T.TRANSPARENT_NOCLONE)
+        if root == 1 and fs and fs[-1] == (adt, field) and [x for x in fs if 'v1::' in x[0]] == [(adt, field)]: out.append((bi, st))
+    return out
+
+
+def value_defs(b, operand, want_adt_suffix, depth=6):
+    """blocks where the value of `operand` is built as an aggregate ending in want_adt_suffix (following plain moves)"""
+    out = []
+    if operand['k'] not in ('copy', 'move') or operand['pl']['p']: return out
+    seen = set(); work = [operand['pl']['l']]
+    while work:
+        l = work.pop()
+        if l in seen: continue
+        seen.add(l)
+        for k, bi, d in b.defs_of(l):
+            if k != 'stmt' or d['dst']['p']: continue
+            rv = d['rv']
+            if rv['k'] == 'agg' and rv['adt'].endswith(want_adt_suffix): out.append(bi)
+            elif rv['k'] == 'use' and rv['ops'][0]['k'] in ('copy', 'move') and not rv['ops'][0]['pl']['p']: work.append(rv['ops'][0]['pl']['l'])
+    return out
 
 
 def quadratic_rules(ctx):
     R = 'C03.quadratic'
-    b = ctx.method(R + '/anchor', 'v1::Quadratic', 'partial_evaluate', trait='Evaluate')
+    b = pe.lnorm(ctx, ctx.method(R + '/anchor', 'v1::Quadratic', 'partial_evaluate', trait='Evaluate'))
     if b is None: return
     pr = probes_in(b)
     ctx.check(len(pr) == 3, R + '/probes', 'T-BRANCHFX', b.name, 'expected three probes (linear term, row, column), found %d' % len(pr), b.site())
@@ -99,139 +109,125 @@ def quadratic_rules(ctx):
     const_l = None; map_l = None
     for c in news:
         ex = T.expr(b, c.args[1]); const_l = ex[1] if ex[0] in ('local', 'place') else None
-        map_l = T.access_path(b, c.args[0], transparent=re.compile(r'::(into_iter|iter|as_ref|deref)(::<.*>)?$'))
+        map_l = pe.coll_root(b, c.args[0])
     ctx.check(len(news) == 1 and const_l is not None, R + '/result/linear-new', 'T-CARRY', b.name, 'the new linear part is not built by Linear::new(map, constant)', b.site())
     ren = {'acc:_%d' % const_l: 'constant'} if const_l is not None else {}
+    maps = set()
     # ---- linear-part loop
-    h1, bl1 = loop_with(b, p_id)
-    t1 = table(ctx, b, [p_id], h1, 'v1::Quadratic', ren)
-    check_table(ctx, R + '/linear-part', b, t1, {
+    h1, bl1 = pe.loop_with(b, p_id)
+    t1 = pe.table(ctx, b, [p_id], h1, 'v1::Quadratic', ren, maps)
+    pe.check_table(ctx, R + '/linear-part', b, t1, {
         'S': {('acc', 'constant', 'Add', ('coefficient', 'val[id]')), ('report', 'id')},
         'N': {('acc', 'entry[id]', 'Add', ('coefficient',))}})
-    # constant starts from the old linear part's constant (0 when absent)
+    # constant starts from the old linear part's constant (0 when absent):
+    #   self.linear.as_ref().map_or(0.0, |l| l.constant)  ==  let mut c = 0.0; if let Some(l) = &self.linear { c = l.constant; .. }
     if const_l is not None:
         init, ups = T.accumulator(b, const_l)
-        okc = False
-        for x, bi in init:
-            if x[0] == 'call' and x[1] in ('map_or', 'map_or_else', 'unwrap_or') and any(a == ('const', '0f64') for a in x[3]):
-                s = ctx.S.backslice(b, [const_l])
-                okc = s.has_field('v1::Linear', 'constant') and s.has_field('v1::Quadratic', 'linear')
+        zero = [bi for x, bi in init if pe._is_zero(x)]
+        old = [bi for x, bi in init if ('v1::Linear', 'constant') in T.expr_fields(x) and ('v1::Quadratic', 'linear') in pe.deep_fields(b, x)]
+        other = [bi for x, bi in init if bi not in zero and bi not in old]
+        okc = bool(old) and not other and not any(z in b.reach([o]) for z in zero for o in old) \
+            and all(pe.only_on_some_side(ctx, b, o, 'v1::Quadratic', 'linear') for o in old)
         ctx.check(okc, R + '/constant-init', 'T-CARRY', b.name, 'folded constant does not start from the old linear part\'s constant (0 if absent)', b.site())
     # ---- main loop
-    h2, bl2 = loop_with(b, p_row)
-    t2 = table(ctx, b, [p_row, p_col], h2, 'v1::Quadratic', ren)
+    h2, bl2 = pe.loop_with(b, p_row)
+    t2 = pe.table(ctx, b, [p_row, p_col], h2, 'v1::Quadratic', ren, maps)
     rm = {('remove', 'rows'), ('remove', 'columns'), ('remove', 'values')}
-    check_table(ctx, R + '/case', b, t2, {
+    pe.check_table(ctx, R + '/case', b, t2, {
         'SS': {('acc', 'constant', 'Add', ('val[columns]', 'val[rows]', 'values')), ('report', 'rows'), ('report', 'columns')} | rm,
         'SN': {('acc', 'entry[columns]', 'Add', ('val[rows]', 'values')), ('report', 'rows')} | rm,
         'NS': {('acc', 'entry[rows]', 'Add', ('val[columns]', 'values')), ('report', 'columns')} | rm,
         'NN': {('inc', 'index')}})
-    idx = set()
-    for c in b.calls:
-        if c.item in ('index', 'swap_remove', 'remove') and re.search(r'Vec<(u64|f64)>|Vec::<(u64|f64)>', c.name) and c.bb in bl2: idx.add(T.expr_str(T.expr(b, c.args[1])))
+    idx = pe.element_indices(b, bl2, r'Vec<(u64|f64)>|Vec::<(u64|f64)>|\[(u64|f64)\]')
     ctx.check(len(idx) == 1, R + '/same-index', 'T-CARRY', b.name, 'probe, fold and removal use different indices %s' % sorted(idx), b.site())
-    # both maps are one: entries of the linear-part loop and of the main loop go to the map given to Linear::new
-    ents = [c for c in b.calls if c.item == 'entry' and 'BTreeMap::<u64, f64>::entry' in c.name]
-    roots = {T.access_path(b, c.args[0], transparent=T.TRANSPARENT_NOCLONE)[1] for c in ents}
-    ctx.check(len(ents) == 3 and len(roots) == 1 and map_l is not None and map_l[1] in roots, R + '/result/one-map', 'T-CARRY', b.name, 'linear coefficients are collected in different maps', b.site())
+    # both maps are one: the coefficients of the linear-part loop and of the main loop go to the map given to Linear::new
+    ctx.check(len(maps) == 1 and map_l is not None and map_l in maps, R + '/result/one-map', 'T-CARRY', b.name, 'linear coefficients are collected in different maps', b.site())
     # self.linear is written on every success path, None only when nothing is left
-    ws = [(bi, st) for bi, st in b.stmts() if st['dst']['p'] and fields_of_place(st['dst']) == [('v1::Quadratic', 'linear')]]
+    ws = writes_to_self_field(b, 'v1::Quadratic', 'linear')
     ctx.check(len(ws) >= 1 and T.must_pass(b, 0, b.strict_ok_exits(), {bi for bi, st in ws}), R + '/result/linear-written', 'T-MUSTCALL', b.name, 'self.linear is not rewritten on every success path', b.site())
     for bi, st in ws:
-        ex = T.expr(b, st['rv']['ops'][0])
-        if ex[0] == 'agg' and ex[1].endswith('Option::None'):
-            # guarded by map.is_empty() && constant == 0
-            g1 = [c for c in b.calls if c.item == 'is_empty' and 'BTreeMap' in c.name]
-            ok1 = any(g.true_bb is not None and bi in T.reach_cp(b, [g.true_bb]) and bi not in T.reach_cp(b, [g.false_bb]) for c in g1 for g in T.guards_from_call(b, c))
-            ok2 = False
+        for nb in value_defs(b, st['rv']['ops'][0], 'Option::None') if st['rv']['k'] == 'use' else []:
+            # None only where map.is_empty() && constant == 0
+            g1 = [g for c in b.calls if c.item == 'is_empty' and 'BTreeMap' in c.name and pe.root_of(b, c.args[0]) == map_l for g in T.guards_from_call(b, c)]
+            g2 = []
             for b2, st2 in float_cmp_sites(b, ('Eq',)):
-                if any(o['k'] == 'const' and o['v'] == '0f64' for o in st2['rv']['ops']):
-                    for g in T.guards_from_local(b, st2['dst']['l'], b2):
-                        if bi in T.reach_cp(b, [g.true_bb]) and bi not in T.reach_cp(b, [g.false_bb]): ok2 = True
-            ctx.check(ok1 and ok2, R + '/result/none-only-when-empty', 'T-GUARD', b.name, 'linear part is dropped although coefficients or a constant remain', b.site(bi))
+                ops = st2['rv']['ops']
+                if any(o['k'] == 'const' and o['v'] in ('0f64', '-0f64') for o in ops) and any(T.expr(b, o) in (('local', const_l), ('place', const_l, [])) for o in ops):
+                    g2 += T.guards_from_local(b, st2['dst']['l'], b2)
+            def only_true(g): return g.true_bb is not None and nb in pe.walk(b, [g.true_bb])[0] and (g.false_bb is None or nb not in pe.walk(b, [g.false_bb])[0])
+            ctx.check(any(only_true(g) for g in g1) and any(only_true(g) for g in g2), R + '/result/none-only-when-empty', 'T-GUARD', b.name, 'linear part is dropped although coefficients or a constant remain', b.site(nb))
     ret_is_used(ctx, R, b)
-    lens = [c for c in b.calls if c.item in ('eq', 'ne') and False]
-    conds = [(bi, st) for bi, st in b.stmts() if st['rv']['k'] == 'bin' and st['rv']['op'] in ('Lt', 'Ne') and st['rv'].get('ty') == 'usize' and bi in bl2]
-    ok = any(T.expr_has_call(T.expr(b, st['rv']['ops'][1]), 'len') and any(f in ('rows', 'columns', 'values') for a, f in T.expr_fields(T.expr(b, st['rv']['ops'][1]))) for bi, st in conds)
-    ctx.check(ok, R + '/all-entries', 'T-LOOPMUST', b.name, 'main loop is not bounded by rows.len()', b.site())
+    bound_rule(ctx, R, 'all-entries', b, bl2, h2, ('rows', 'columns', 'values'), 'v1::Quadratic', 'the main loop')
 
 
 def polynomial_rules(ctx):
     R = 'C03.polynomial'
-    b = ctx.method(R + '/anchor', 'v1::Polynomial', 'partial_evaluate', trait='Evaluate')
+    b = pe.lnorm(ctx, ctx.method(R + '/anchor', 'v1::Polynomial', 'partial_evaluate', trait='Evaluate'))
     if b is None: return
     pr = probes_in(b)
     ctx.check(len(pr) == 1, R + '/probe', 'T-BRANCHFX', b.name, 'expected one probe, found %d' % len(pr), b.site())
     if len(pr) != 1: return
     ctx.check(pe.label(b, T.expr(b, pr[0].args[1])) == 'ids', R + '/probe-key', 'T-CARRY', b.name, 'probe is not keyed by an id of the monomial', b.site(pr[0].bb))
-    h, bl = loop_with(b, pr[0])
-    # value accumulator of the monomial
-    muls = [c for c in b.calls if T.ASSIGN_CALL.match(c.name) and c.bb in bl]
-    vl = None
-    for c in muls:
-        ex = T.expr(b, c.args[0]); vl = ex[1] if ex[0] in ('local', 'place') else None
-    ren = {'acc:_%d' % vl: 'value'} if vl is not None else {}
-    tab = table(ctx, b, pr, h, 'v1::Polynomial', ren)
-    check_table(ctx, R + '/case', b, tab, {
-        'S': {('acc', 'value', 'Mul', ('val[ids]',)), ('report', 'ids')},
-        'N': {('keep-id', 'ids')}})
-    if vl is not None:
-        init, ups = T.accumulator(b, vl)
-        ctx.check(len(init) == 1 and pe.outer_field(init[0][0]) == 'coefficient', R + '/value-init', 'T-CARRY', b.name, 'monomial value does not start from its coefficient', b.site())
-    # every id of the monomial is probed
+    h, bl = pe.loop_with(b, pr[0])
     inner = [lo for lo in T.for_loops(b) if pr[0].bb in lo[4]]
     inner = min(inner, key=lambda l: len(l[4])) if inner else None
-    if inner:
-        loop_must(ctx, R + '/every-id', b, inner, lambda c: c is pr[0], 'state.get(id)')
-        outer = [lo for lo in T.for_loops(b) if set(inner[4]) < set(lo[4])]
-        if outer:
-            o = outer[0]
-            ent = [c for c in b.calls if c.item == 'entry' and 'BTreeMap' in c.name and c.bb in o[4]]
-            ctx.check(len(ent) == 1, R + '/collect/entry', 'T-LOOPMUST', b.name, 'expected one monomials.entry(ids)', b.site())
-            # key = the kept-id vector, value += monomial value
-            keep = [c for c in b.calls if c.item == 'push' and 'Vec::<u64>::push' in c.name and c.bb in inner[4]]
-            for c in ent:
-                kroot = T.access_path(b, c.args[1])[1]
-                ctx.check(bool(keep) and kroot == T.access_path(b, keep[0].args[0], transparent=T.TRANSPARENT_NOCLONE)[1], R + '/collect/key-is-kept-ids', 'T-CARRY', b.name, 'the map key is not the vector of remaining ids', b.site(c.bb))
-            adds = [(bi, st) for bi, st in b.stmts() if bi in o[4] and bi not in inner[4] and st['rv']['k'] == 'bin' and st['rv']['op'] == 'Add' and st['rv'].get('ty') == 'f64' and st['dst']['p']]
-            okadd = False
-            for bi, st in adds:
-                tl = pe.target_label(ctx, b, st['dst'])
-                other = [o2 for o2 in st['rv']['ops'] if not (o2['k'] in ('copy', 'move') and o2['pl'] == st['dst'])]
-                ex = T.expr(b, other[0]) if other else None
-                if tl.startswith('entry[') and ex is not None and ex[0] in ('local', 'place') and ex[1] == vl: okadd = True
-            ctx.check(okadd, R + '/collect/adds-value', 'T-BRANCHFX', b.name, 'monomial value is not added to the entry of its remaining ids', b.site())
-            # skipping is allowed only for |coefficient| <= EPSILON; otherwise the entry is reached
-            via = {c.bb for c in ent}
-            skips = set()
-            for bi, st in float_cmp_sites(b, ('Le', 'Lt')):
-                if bi in o[4] and any(o2['k'] == 'const' and 'EPSILON' in o2['v'] for o2 in st['rv']['ops']):
-                    oth = [o2 for o2 in st['rv']['ops'] if o2['k'] != 'const']
-                    ax = T.expr(b, oth[0]) if oth else ('local', -1)
-                    if oth and T.expr_has_call(ax, 'abs') and (('v1::Monomial', 'coefficient') in T.expr_fields(ax) or any(x[0] in ('local', 'place') and x[1] == vl for x in T.expr_walk(ax))):
-                        for g in T.guards_from_local(b, st['dst']['l'], bi): skips.add(g.true_bb)
-            ctx.check(T.must_pass(b, o[2], {o[1]}, via | skips), R + '/collect/every-term', 'T-LOOPMUST', b.name, 'a monomial can bypass the result map', b.site())
-    # self.terms rebuilt from the map
-    ws = [(bi, st) for bi, st in b.stmts() if st['dst']['p'] and fields_of_place(st['dst']) == [('v1::Polynomial', 'terms')]]
+    outer = [lo for lo in T.for_loops(b) if inner and set(inner[4]) < set(lo[4])]
+    outer = min(outer, key=lambda l: len(l[4])) if outer else None
+    ctx.check(inner is not None and outer is not None, R + '/loops', 'T-LOOPMUST', b.name, 'the probe is not inside a loop over the ids of a monomial inside a loop over the monomials', b.site())
+    if inner is None or outer is None: return
+    loop_must(ctx, R + '/every-id', b, inner, lambda c: c is pr[0], 'state.get(id)')
+    # ---- what happens to an id in each case, including what is done later to the vector it was pushed to
+    raw = pe.table(ctx, b, pr, h, 'v1::Polynomial')
+    info = pe.PolyInfo(ctx, b, outer)
+    tab = {case: info.resolve(eff) for case, eff in raw.items()}
+    pe.check_table(ctx, R + '/case', b, tab, {
+        'S': {('acc', 'value', 'Mul', ('val[ids]',)), ('report', 'ids')},
+        'N': {('keep-id', 'ids')}})
+    vl = info.value_local
+    ctx.check(vl is not None and info.value_init == 'coefficient', R + '/value-init', 'T-CARRY', b.name, 'monomial value does not start from its coefficient', b.site())
+    # ---- the monomial reaches the result map: key = the kept ids, value += monomial value
+    ctx.check(info.key_vec is not None, R + '/collect/entry', 'T-LOOPMUST', b.name, 'no accumulation into the result map keyed by a vector of ids', b.site())
+    ctx.check(info.key_vec is not None and info.key_vec in info.kept_vecs, R + '/collect/key-is-kept-ids', 'T-CARRY', b.name, 'the map key is not the vector of remaining ids', b.site())
+    ctx.check(info.adds_value, R + '/collect/adds-value', 'T-BRANCHFX', b.name, 'monomial value is not added to the entry of its remaining ids', b.site())
+    # skipping is allowed only for |coefficient| <= EPSILON; otherwise the entry is reached
+    skips = set()
+    for bi, st in float_cmp_sites(b, ('Le', 'Lt')):
+        if bi in outer[4] and any(o2['k'] == 'const' and 'EPSILON' in o2['v'] for o2 in st['rv']['ops']):
+            oth = [o2 for o2 in st['rv']['ops'] if o2['k'] != 'const']
+            ax = T.expr(b, oth[0]) if oth else ('local', -1)
+            if oth and T.expr_has_call(ax, 'abs') and (('v1::Monomial', 'coefficient') in T.expr_fields(ax) or any(x[0] in ('local', 'place') and x[1] == vl for x in T.expr_walk(ax))):
+                for g in T.guards_from_local(b, st['dst']['l'], bi): skips.add(g.true_bb)
+    ctx.check(bool(info.acc_blocks) and T.must_pass(b, outer[2], {outer[1]}, info.acc_blocks | skips), R + '/collect/every-term', 'T-LOOPMUST', b.name, 'a monomial can bypass the result map', b.site())
+    # ---- self.terms rebuilt from the map: Monomial { ids: key, coefficient: value } for every entry
+    ws = writes_to_self_field(b, 'v1::Polynomial', 'terms')
     ok = False
     for bi, st in ws:
         s = ctx.S.slice_operand(b, st['rv']['ops'][0])
-        ok = any(c.item == 'entry' for c in s.call_objs) and all(b.dominates(bi, e) for e in b.strict_ok_exits())
-        for cn in s.closures:
-            cb = ctx.F.bodies.get(cn)
-            if cb is not None and cb.parent == b.name:
-                for b2, st2 in find_aggregates(cb, 'v1::Monomial'):
-                    d = dict(zip(st2['rv']['fields'], st2['rv']['ops']))
-                    ctx.check(T.expr_fields(T.expr(cb, d['ids']))[-1:] == [('tuple', '0')] and T.expr_fields(T.expr(cb, d['coefficient']))[-1:] == [('tuple', '1')], R + '/rebuild/monomial', 'T-CARRY', cb.name,
-                              'Monomial is not {ids: key, coefficient: value} of the map entry', cb.site(b2))
+        ok = info.map_local is not None and info.map_local in s.locals and all(b.dominates(bi, e) for e in b.strict_ok_exits())
     ctx.check(ok, R + '/rebuild/terms-from-map', 'T-CARRY', b.name, 'self.terms is not rebuilt from the collected map on every success path', b.site())
+    aggs = find_aggregates(b, 'v1::Monomial')
+    for cb in ctx.F.closures_of(b.orig):
+        aggs2 = find_aggregates(cb, 'v1::Monomial')
+        for b2, st2 in aggs2:
+            d = dict(zip(st2['rv']['fields'], st2['rv']['ops']))
+            ctx.check(T.expr_fields(T.expr(cb, d['ids']))[-1:] == [('tuple', '0')] and T.expr_fields(T.expr(cb, d['coefficient']))[-1:] == [('tuple', '1')], R + '/rebuild/monomial', 'T-CARRY', cb.name,
+                      'Monomial is not {ids: key, coefficient: value} of the map entry', cb.site(b2))
+    for b2, st2 in aggs:
+        d = dict(zip(st2['rv']['fields'], st2['rv']['ops']))
+        ctx.check(T.expr_fields(T.expr(b, d['ids']))[-1:] == [('tuple', '0')] and T.expr_fields(T.expr(b, d['coefficient']))[-1:] == [('tuple', '1')], R + '/rebuild/monomial', 'T-CARRY', b.name,
+                  'Monomial is not {ids: key, coefficient: value} of the map entry', b.site(b2))
     ret_is_used(ctx, R, b)
+
+
+def generic_self(c):
+    """call of a trait method on a type parameter (`<T as Evaluate>::..` inside an inlined generic helper)"""
+    return re.fullmatch(r'[A-Z]\w*', c.self_ty or '') is not None
 
 
 def delegate_rules(ctx):
     R = 'C03.delegate'
     # Function: arm per variant
-    b = ctx.method(R + '/Function/anchor', 'v1::Function', 'partial_evaluate', trait='Evaluate')
+    b = pe.lnorm(ctx, ctx.method(R + '/Function/anchor', 'v1::Function', 'partial_evaluate', trait='Evaluate'))
     if b is not None:
         want = {'Linear': 'v1::Linear', 'Quadratic': 'v1::Quadratic', 'Polynomial': 'v1::Polynomial'}
         pes = [c for c in b.calls if c.item == 'partial_evaluate' and 'Evaluate' in (c.trait or '')]
@@ -241,45 +237,48 @@ def delegate_rules(ctx):
             arm = [a.split('::')[-1] for a, f in T.access_path(b, c.args[0])[0] if 'function::Function::' in a]
             if tys and arm and tys[0] == arm[0] and T.access_path(b, c.args[1])[1] == 2: got[tys[0]] = c
         ctx.check(set(got) == set(want), R + '/Function/arms', 'T-BRANCHFX', b.name, 'arms delegating to their payload: %s, expected %s' % (sorted(got), sorted(want)), b.site())
-        errflow_calls(ctx, R + '/Function/errors', b, pes, 'payload partial_evaluate')
+        pe.errflow_calls(ctx, R + '/Function/errors', b, pes, 'payload partial_evaluate')
         for e, k, st in b.ret_assignments():
             if k == 'ok':
                 s = ctx.S.slice_operand(b, st['rv']['ops'][0])
                 ctx.check(all(c in s.call_objs for c in got.values()), R + '/Function/returns-payload-set', 'T-CARRY', b.name, 'returned set does not come from the payload', b.site(e))
     for ty, field in (('v1::Constraint', ('v1::Constraint', 'function')), ('v1::RemovedConstraint', ('v1::RemovedConstraint', 'constraint'))):
-        b = ctx.method(R + '/%s/anchor' % ty.split('::')[-1], ty, 'partial_evaluate', trait='Evaluate')
+        b = pe.lnorm(ctx, ctx.method(R + '/%s/anchor' % ty.split('::')[-1], ty, 'partial_evaluate', trait='Evaluate'))
         if b is None: continue
         pes = [c for c in b.calls if c.item == 'partial_evaluate' and 'Evaluate' in (c.trait or '')]
         ok = len(pes) == 1 and field in T.access_path(b, pes[0].args[0])[0] and T.access_path(b, pes[0].args[1])[1] == 2
         ctx.check(ok, R + '/%s/passes-state' % ty.split('::')[-1], 'T-CARRY', b.name, 'does not partially evaluate its %s with the given state' % field[1], b.site())
         for c in pes:
-            res = T.errflow(b, c.dst['l'])
+            res = pe.errflow(b, c.dst['l'])
             ctx.check(not [h for k, h in res if k == 'bad'], R + '/%s/returns-result' % ty.split('::')[-1], 'T-ERRFLOW', b.name, 'result of the inner partial_evaluate is not returned / propagated', b.site(c.bb))
         if ty.endswith('RemovedConstraint'):
             opt = [c for c in b.calls if c.item == 'as_mut' and 'Option::<v1::Constraint>' in c.name]
-            errflow_calls(ctx, R + '/RemovedConstraint/missing-is-error', b, opt, 'missing constraint')
+            pe.errflow_calls(ctx, R + '/RemovedConstraint/missing-is-error', b, opt, 'missing constraint')
 
 
 def instance_rules(ctx):
     R = 'C03.instance'
-    b = ctx.method(R + '/anchor', INST, 'partial_evaluate', trait='Evaluate')
-    if b is None: return
-    cover(ctx, R + '/cover', b, INST, exempt=('description', 'sense', 'parameters', 'constraint_hints'))
+    b0 = ctx.method(R + '/anchor', INST, 'partial_evaluate', trait='Evaluate')
+    if b0 is None: return
+    cover(ctx, R + '/cover', b0, INST, exempt=('description', 'sense', 'parameters', 'constraint_hints'))
+    b = pe.lnorm(ctx, b0)
     pes = [c for c in b.calls if c.item == 'partial_evaluate' and 'Evaluate' in (c.trait or '')]
-    want = {'objective': r'<v1::Function as', 'constraints': r'<v1::Constraint as', 'removed_constraints': r'<v1::RemovedConstraint as', 'decision_variable_dependency': r'<v1::Function as'}
+    want = {'objective': r'v1::Function$', 'constraints': r'v1::Constraint$', 'removed_constraints': r'v1::RemovedConstraint$', 'decision_variable_dependency': r'v1::Function$'}
     found = {}
     for c in pes:
         s = ctx.S.slice_operand(b, c.args[0])
         for f, pat in want.items():
-            if s.has_field(INST, f) and re.search(pat, c.name) and f not in found:
+            # the receiver derives from self.<f>; its type is the element type (or the type parameter of an inlined generic helper, which can only be instantiated with it)
+            if s.has_field(INST, f) and (re.search(pat, c.self_ty or '') or generic_self(c)) and f not in found:
                 if f == 'objective' and s.has_field(INST, 'decision_variable_dependency'): continue
+                if f != 'objective' and generic_self(c) and sum(1 for g in want if s.has_field(INST, g)) != 1: continue
                 found[f] = c
     for f in want:
         c = found.get(f)
         ctx.check(c is not None, R + '/apply/' + f, 'T-MUSTCALL', b.name, 'self.%s is not partially evaluated' % f, b.site())
         if c is None: continue
         ctx.check(T.access_path(b, c.args[1])[1] == 2, R + '/apply/%s/state' % f, 'T-CARRY', b.name, 'not with the given state', b.site(c.bb))
-        errflow_calls(ctx, R + '/apply/%s/error' % f, b, [c], 'partial_evaluate')
+        pe.errflow_calls(ctx, R + '/apply/%s/error' % f, b, [c], 'partial_evaluate')
         if f == 'objective':
             must_pass_or_none(ctx, R + '/apply/objective/every-path', b, c, INST, 'objective', 'partially evaluating the objective')
         else:
@@ -315,4 +314,5 @@ def instance_rules(ctx):
 
 def check(ctx):
     linear_rules(ctx); quadratic_rules(ctx); polynomial_rules(ctx); delegate_rules(ctx); instance_rules(ctx)
-    ctx.floor('C03.linear', 6); ctx.floor('C03.quadratic', 14); ctx.floor('C03.polynomial', 10); ctx.floor('C03.delegate', 8); ctx.floor('C03.instance', 25)
+    pe.unmark(ctx)
+    ctx.floor('C03.linear', 7); ctx.floor('C03.quadratic', 16); ctx.floor('C03.polynomial', 15); ctx.floor('C03.delegate', 10); ctx.floor('C03.instance', 37)
